@@ -15,6 +15,9 @@ def analyse(ctx: CheckContext, p: Program):
     ctx.info["functions_scanned"] = len(funcs)
     inval.check_views(ctx, eng, funcs)
     inval.check_indices(ctx, eng, funcs)
+    inval.check_stale_derived(ctx, eng, funcs)
+    inval.check_source_column_readonly(ctx, eng)
+    inval.check_mirrored_branches(ctx, eng)
     # the rebase amount is trustworthy: the returned count is the number of rows the buffer grew by
     tables.check_insert_count(ctx, p, r)
 
@@ -37,6 +40,13 @@ def run(ctx: CheckContext):
     run_control(ctx, "C07/indices-not-rebound", analyse, p.root, g,
                 "    pt, hot_pinch_loc, cold_pinch_loc = _remove_pockets_on_one_side_of_the_pinch(\n        pt, col_H_NP, col_H, hot_pinch_loc, cold_pinch_loc, True\n    )",
                 "    _remove_pockets_on_one_side_of_the_pinch(\n        pt, col_H_NP, col_H, hot_pinch_loc, cold_pinch_loc, True\n    )", "INVAL-I2")
+    run_control(ctx, "C07/source-column-written", analyse, p.root, g,
+                "            pt.loc[j, col_H_NP] = 0", "            pt.loc[j, col_H] = 0", "SRC-RO")
+    run_control(ctx, "C07/branches-not-mirrored", analyse, p.root, g,
+                "        for i in range(i_0 - 1, pinch_loc - 1, -1):", "        for i in range(i_0 - 1, pinch_loc, -1):", "MIRROR")
+    run_control(ctx, "C07/stale-range", analyse, p.root, g,
+                "    if hot_pinch_loc + 1 < cold_pinch_loc:\n        for j in range(hot_pinch_loc + 1, cold_pinch_loc):\n            pt.loc[j, col_H_NP] = 0\n\n    # Remove pocket segments above the Pinch\n    pt, hot_pinch_loc, cold_pinch_loc = _remove_pockets_on_one_side_of_the_pinch(\n        pt, col_H_NP, col_H, hot_pinch_loc, cold_pinch_loc, True\n    )\n",
+                "    between = range(hot_pinch_loc + 1, cold_pinch_loc)\n\n    # Remove pocket segments above the Pinch\n    pt, hot_pinch_loc, cold_pinch_loc = _remove_pockets_on_one_side_of_the_pinch(\n        pt, col_H_NP, col_H, hot_pinch_loc, cold_pinch_loc, True\n    )\n    for j in between:\n        pt.loc[j, col_H_NP] = 0\n", "INVAL-I4")
     run_control(ctx, "C07/twin-rebase-order", analyse, p.root, g,
                 "                    hot_pinch_loc += n_int_added\n                    cold_pinch_loc += n_int_added\n                    pinch_loc += n_int_added\n",
                 "                    pinch_loc += n_int_added\n                    cold_pinch_loc += n_int_added\n                    hot_pinch_loc += n_int_added\n", "INVAL", expect_fire=False)
